@@ -41,7 +41,7 @@ PROP_WORLDS = {
     "C06": [("data", 1.0)],
     "C12": [("clock", 1.0)],
     "C13": [("clock", 1.0)],
-    "C16": [("signal", 0.5), ("session", 0.5)],
+    "C16": [("signal", 1.0)],
     "C07": [("pair", 1.0)],
     "C08": [("session", 1.0)],
     "C14": [("session", 1.0)],
